@@ -35,9 +35,14 @@ LEVEL_TEXT = (
     "fix: commit 61ccdd1 — the pre-fix code is kept as setInitNoRollback with the refutation "
     "set_failure_not_atomic_without_rollback), nested_exit_restores / nested_never_stuck (induction over arbitrary "
     "programs of nested and sequenced with-blocks, including raising inner calls unwinding outer blocks), "
-    "get_after_assign (any depth) and get_either_spelling (one level, under the exact hypotheses the code needs: "
-    "altName involutive on the name and not both spellings already present; a witness shows mixed names like "
-    "'a_b-c' are not symmetric), update/merge precedence lemmas. update/merge/collect_env/check_deprecations are "
+    "get_after_assign (any depth), get_either_spelling and get_either_spelling_path (any depth, every segment "
+    "independently respelled; hypotheses = exactly what the code needs: no mapping on the path already holds both "
+    "spellings, and altName is involutive on the segment — proved for every name that does not mix '-' and '_' "
+    "(altName_invol, respell_alt_of_pure); a witness shows mixed names like 'a_b-c' are not symmetric). "
+    "update_new_last_wins / merge_last_wins (priority 'new' and merge: the last scalar item wins, whatever came "
+    "before); the other precedence clauses (priority 'old', 'new-defaults', nested merging) are validated by "
+    "oracle + function-level diff only. "
+    "update/merge/collect_env/check_deprecations are "
     "modelled and diffed against the real functions on every run; serialize/deserialize and interpret_value are "
     "validated by oracle only (not modelled: base64/json/ast.literal_eval).")
 LEVEL_NOTE = ("Trusted: Lean kernel + standard axioms; the correspondence harness; CPython dict/str semantics "
